@@ -9,6 +9,7 @@ From HbsLms Require Import Spec.Rfc8554Ots Spec.Rfc8554 Spec.HashSigs Spec.HssSp
 From HbsLms Require Import Proofs.WinternitzDom Proofs.RfcCore Proofs.HashSigsProofs Proofs.HssRfc
      Proofs.KeyBlobProofs Proofs.SignProofs Proofs.RfcVerifyEquiv Gen.Generated.
 From HbsLms Require Properties.C01.
+From HbsLms Require Import Proofs.Lengths.
 
 Local Open Scope N_scope.
 
@@ -128,6 +129,29 @@ Proof.
   exact (C01.C01_released_signature_verifies n H Hn HL ps seed sk pk c msg cb sig calls F Ls KG Hc SG).
 Qed.
 
+
+(* "every length equals the RFC formula": an LM-OTS signature has 4 + n (p + 1) bytes, an LMS
+   signature 12 + n (p + 1) + n h, an LMS public key 24 + n; the released HSS signature is
+   4 + sum over the upper levels (LMS signature + LMS public key) + the bottom LMS signature, the
+   HSS public key 4 + 24 + n -- for every hash with n-byte output, parameter list, seed, counter
+   and message *)
+Theorem C07_lengths_are_rfc :
+  forall (n : nat) (H : bytes -> bytes) (ps : list param) (seed : bytes) (c : N) (msg sig pk : bytes),
+    In n hash_sizes -> (forall x, length (H x) = n) ->
+    hss_signature K_src n H ps seed c msg = Ok sig -> hss_public_key K_src n H ps seed = Ok pk ->
+    length sig = (4 + sumnat (map (fun p => (12 + n * (o_p (fst p) + 1) + n * l_h (snd p)) + (24 + n))%nat (removelast ps))
+                  + (12 + n * (o_p (fst (last ps (hd ({| o_type := 0; o_w := 0; o_p := 0; o_ls := 0 |}, {| l_type := 0; l_h := 0 |}) ps))) + 1)
+                     + n * l_h (snd (last ps (hd ({| o_type := 0; o_w := 0; o_p := 0; o_ls := 0 |}, {| l_type := 0; l_h := 0 |}) ps)))))%nat
+    /\ length pk = (4 + (24 + n))%nat.
+Proof.
+  intros n H ps seed c msg sig pk Hn HL ES EP.
+  assert (IL : (c_ilen K_src <= n)%nat) by (pose proof (n_range n Hn); cbn; lia).
+  assert (LS : N.of_nat (c_max_levels K_src) < 4294967296) by (cbn; lia).
+  split.
+  - exact (hss_signature_length K_src n H HL IL LS ps seed c msg sig ES).
+  - exact (hss_public_key_length K_src n H HL IL LS ps seed pk EP).
+Qed.
+
 (* the RFC's own test vectors: accepted by the independent transcription and by the model *)
 Theorem C07_rfc_vectors :
   rfc_verify rfc_testcase1_message rfc_testcase1_signature rfc_testcase1_public_key = true
@@ -148,4 +172,5 @@ Print Assumptions C07_lmots_public_key_is_alg1.
 Print Assumptions C07_lmots_signature_is_alg3.
 Print Assumptions C07_signature_is_rfc8554.
 Print Assumptions C07_sign_core_releases_it.
+Print Assumptions C07_lengths_are_rfc.
 Print Assumptions C07_rfc_verifier_accepts_released_signatures.
